@@ -24,3 +24,22 @@ pub fn sched_point(name: &'static str, seq: i64) {
         hook(name, seq);
     }
 }
+
+/// `(thread ids the debugger reported to a thread-cache refresh of the session)`
+pub type ThreadProbe = fn(&[i64]);
+
+static THREAD_PROBE: RwLock<Option<ThreadProbe>> = RwLock::new(None);
+
+/// Install (or remove) the thread-list probe.
+pub fn set_thread_probe(probe: Option<ThreadProbe>) {
+    *THREAD_PROBE.write().unwrap() = probe;
+}
+
+/// Called by `refresh_threads_with_events` with the thread list the debugger returned, before the
+/// session diffs it against its thread cache. Without a probe installed this does nothing.
+pub fn thread_probe(ids: &[i64]) {
+    let probe = *THREAD_PROBE.read().unwrap();
+    if let Some(probe) = probe {
+        probe(ids);
+    }
+}
